@@ -57,16 +57,26 @@ console.log = () => {}; // index.js prints a banner
   }
   const cases = JSON.parse(fs.readFileSync(casesPath, "utf8"));
   const out = [];
+  // "reinit" mode: the package's entry function is called again on the SAME module instance (as two parts of one
+  // application would), before the first case and every 97 cases; the exported object is then alternately the newest
+  // one and the very first one
+  const reinit = process.argv[5] === "reinit";
+  let firstObj = exportsObj, inits = 1, n = 0;
+  async function again() {
+    try { exportsObj = await require(indexPath)(); inits++; } catch (e) { /* the cases report what follows */ }
+  }
+  if (reinit) { await again(); await again(); }
   for (const c of cases) {
+    if (reinit && ++n % 97 === 0) await again();
     const args = (c.args || []).map(toArg);
     const g = call(globalThis[c.fn], args);
-    const x = call(exportsObj[c.fn], args);
+    const x = call((reinit && c.id % 2 ? firstObj : exportsObj)[c.fn], args);
     out.push({ id: c.id, global: g, exported: x });
     const dead = (r) => r.t === "thrown" && /already exited/.test(r.thrown || "");
     if ((dead(g) || dead(x)) && reloads < 200) {
-      try { exportsObj = await load(); reloads++; } catch (e) { /* keep the dead instance: later cases report it */ }
+      try { exportsObj = await load(); firstObj = exportsObj; reloads++; if (reinit) await again(); } catch (e) { /* keep the dead instance: later cases report it */ }
     }
   }
-  fs.writeFileSync(outPath, JSON.stringify({ exported_names: Object.keys(exportsObj), results: out, module_reloads: reloads }));
+  fs.writeFileSync(outPath, JSON.stringify({ exported_names: Object.keys(exportsObj), results: out, module_reloads: reloads, entry_function_calls: inits }));
   process.exit(0);
 })();
